@@ -149,6 +149,7 @@ func ruleC07R2(r *Run) {
 	}
 	ndel, nlookup := 0, 0
 	inserts := map[string]int{}
+	deletes := map[string]int{}
 	defer func() {
 		var ks []string
 		for fk := range tables {
@@ -157,6 +158,7 @@ func ruleC07R2(r *Run) {
 		sort.Strings(ks)
 		for _, fk := range ks {
 			r.Check("table "+fk+" has a registration site", inserts[fk] > 0, "", "wire", fmt.Sprintf("%d map update(s) insert into %s outside constructors; a table that is only looked up and deleted from routes nothing", inserts[fk], fk))
+			r.Check("table "+fk+" has a removal site", deletes[fk] > 0, "", "wire", fmt.Sprintf("%d delete(s) on %s: a closed stream's entry must leave the table (the alias can be assigned to another stream later)", deletes[fk], fk))
 		}
 	}()
 	for _, fn := range p.Funcs {
@@ -174,6 +176,7 @@ func ruleC07R2(r *Run) {
 			}
 			if a.What == "delete" {
 				ndel++
+				deletes[fk]++
 				c := a.Ins.(*ssa.Call)
 				key := c.Call.Args[1]
 				leaves := p.Leaves(key, provOpts{ParamDepth: 2})
